@@ -119,4 +119,17 @@ PROPS = {
         'assumptions': ['the injection string is representable in Latin-1 (it is ASCII for every hostname the template can render); gzip, HTTP plumbing and text/template are not modelled: the model sees the decompressed body and the rendered tag'],
         'shards': 8,
     },
+    'C13': {
+        'harness': 'c13',
+        'rule': 'storages of 1-3 String lists (0-30 lines each: hosts lines, bare domains, host-level rules with important / badfilter / dnstype / client / ctag / dnsrewrite / denyallow, || rules reachable both by hostname and by URL requests, regex rules incl. an invalid one, lookup-table rules) shared by one NetworkEngine and one DNSEngine; histories of 30-60 (150-300 thorough) queries: URL requests (also https/ws/wss variants of hosts queried by name before), hostname requests through NetworkEngine.MatchAll, DNS requests through DNSEngine.MatchRequest with alternating client name / IP / tags / record type, one query in four repeating an earlier one (possibly through the other engine or with other client fields); after every third query the derived results (DNSRewrites, DNSRewritesAll, GetDNSBasicRule, NewMatchingResult.GetBasicResult, GetCosmeticOption) of older result objects are evaluated; the harness also asks every query on fresh engines and re-serialises every old result object at the end; non-trivial = some query of the history matched',
+        'correspondence': 'per query the canonical answer (sorted rule texts; for DNS: network rules, basic-rule class, V4, V6, matched) of the implementation in history vs the STATEFUL model (cache, lazy compilation memo, request pool) run on the same history, which by C13_history_independent equals the pure answer; Go-side flags: answer differs from the fresh-engine answer, an old result object changed',
+        'assumptions': ['slice aliasing between result objects is exercised on the implementation side only (re-serialisation of old results); the model treats results as values'],
+    },
+    'C19': {
+        'harness': 'c19',
+        'rule': 'File-backed storages of 1-3 lists (0-25 lines, same line grammar as C13) with a NetworkEngine and a DNSEngine; base histories of 6-16 (6-40 thorough) queries; for EVERY fault point k in 0..n one case: queries 1..k, the fault (RuleStorage.Close, or every list file handle replaced by a closed descriptor), queries k+1..n, then queries 1..k again (rules materialised before the fault), occasionally a second fault; all queries under recover(); after the fault the harness checks on the implementation side that every returned rule matches its request and belongs to the fault-free answer (computed on a String-backed twin); non-trivial = some query after the fault still returned rules',
+        'correspondence': 'per query the canonical answer of the implementation vs the stateful model run on the same history (cache filled in the order of the code, retrieval failing after the fault unless cached); Go-side flags: panic, returned rule that does not match, returned rule outside the fault-free answer',
+        'exhaustive_part': 'fault point k = 0..n of every base history',
+        'assumptions': ['faults are persistent (closed storage / closed descriptor), as in the property; the model does not express panics: they are observed under recover()'],
+    },
 }
